@@ -129,7 +129,7 @@ PROPS = {
     "C11": dict(
         lean_modules=["Enc.Props.C11"],
         variants=V_DEFAULT, areas=["json.Decoder", "json.Parse", "json.skipSpaces", "json.decoder_parse"],
-        allowed_native=["Enc.Lemmas.Json"],
+        allowed_native=["Enc.Lemmas.Json", "Lemmas.JsonScan"],
         main_theorem="Enc.Props.C11 (chunking independence of readValue)",
         rule="value sequences with members placed to straddle / end exactly at offsets 4096, 32768, 36864, 65536 x chunkings "
              "{single read, 1-byte reads, primes, exactly-to-the-edge with zero-length reads, random} x {clean EOF, data delivered "
@@ -143,7 +143,7 @@ PROPS = {
     "C17": dict(
         lean_modules=["Enc.Props.C17"],
         variants=V_DEFAULT, areas=["json.Tokenizer", "json.stack", "json.acquireStack", "json.releaseStack", "json.RawValue", "json.decoder_parse"],
-        allowed_native=["Enc.Lemmas.Json"],
+        allowed_native=["Enc.Lemmas.Json", "Lemmas.JsonScan"],
         main_theorem="Enc.Props.C17 (token stream = grammar-directed specification)",
         rule="grammar-directed documents (empty containers inside non-empty ones, keys after nested objects, depth <= 12, "
              "white-space variants) + one-edit mutations + arbitrary byte strings over the JSON alphabet: full token stream "
@@ -152,5 +152,22 @@ PROPS = {
              "String/Int/Uint/Float/Bool/Kind), concatenation = Compact(doc), Reset after abandonment with a dirty pooled stack",
         trusted_base=["encoding/json token stream as in-process oracle for decoded values"],
         assumptions=[],
+    ),
+    "C19": dict(
+        lean_modules=["Enc.Props.C19"],
+        variants=V_DEFAULT, areas=["proto.MessageRewriter", "proto.multiRewriter", "proto.embddedRewriter", "proto.makeFieldset", "proto.fieldset",
+                                   "proto.parseRewriteTemplate", "proto.ParseRewriteTemplate", "proto.bitOrRW", "proto.BitOr", "proto.Append", "proto.Parse",
+                                   "proto.RawMessage"],
+        allowed_native=["Enc.Lemmas.Proto"],
+        main_theorem="Enc.Props.C19 (rewrite = replace on records)",
+        rule="(1) MessageRewriters assembled from RawMessage / Multi leaves at field numbers 1..70000 (incl. 255/256/257/4095/65535/"
+             "65536) x inputs where templated numbers are absent / occur once / repeatedly, interleaved with other fields and "
+             "mutated: output bytes vs the Lean model, parsed records vs the Lean record-level specification, input untouched, "
+             "appended after an existing prefix; (2) rewrite templates for random message types (scalars, bytes, strings, "
+             "embedded structs, repeated scalars, string maps, tagged numbers up to 65535) x original value x template value x "
+             "field subset: decoded output vs a reflect-based oracle (templated fields replaced, others kept), template and "
+             "input bytes unchanged; (3) BitOr rules on int32/int64/uint32/uint64/sint64/fixed64 fields",
+        trusted_base=["reflect-based oracle for template semantics (harness/c19.go)"],
+        assumptions=["template generation avoids zero map values and NaN/Inf/-0 (not representable / documented no-ops)"],
     ),
 }
